@@ -316,9 +316,12 @@ inductive Op where
   | registerResolver (typename fieldname : String) (r : ResolverD) (allowOverride same : Bool)
   | registerDefaultResolver (typename : String) (r : ResolverD) (allowOverride : Bool)
   | registerSubscription (typename fieldname : String) (r : ResolverD) (allowOverride same : Bool)
-  /-- `_replace_types_and_directives(types={name: new})`, entries in dict order;
-      the flag says the new object IS the registered one (`new_type != original_type` is identity) -/
-  | replaceTypes (entries : List (String × TypeD × Bool))
+  /-- `_replace_types_and_directives(types={name: new | None}, directives={name: new | None})`, entries in
+      dict order; the flag says the new object IS the registered one (`new_type != original_type` is
+      identity; for directives `new is directives.get(name)`). `healed`: the description after
+      `fix_type_references` when a deletion made it remove members (only exercised, taken from the live object). -/
+  | replaceTypes (entries : List (String × Option TypeD × Bool))
+      (dirEntries : List (String × Option DirectiveD × Bool) := []) (healed : Option SchemaD := none)
   deriving Repr, Inhabited
 
 inductive Outcome where
@@ -349,18 +352,76 @@ def registerDefault (st : CacheState) (tn : String) (r : ResolverD) (allow : Boo
     else if t.defaultResolver.isSome && !allow then (st1, .valueError)
     else ({ st1 with schema := setDefaultResolver st.schema tn r, isValid := false }, .ok)
 
-/-- `_replace_types_and_directives`, the loop over `types` (as the code is: `busted_cache` is
-    overwritten by every entry; an error leaves the earlier replacements in place). Returns
-    (types, busted, raised). -/
-def applyReplace (types : List TypeD) (busted : Bool) : List (String × TypeD × Bool) → List TypeD × Bool × Bool
+/-- `_replace_types_and_directives`, the loop over `types`. `acc`: `busted_cache = busted_cache or …`
+    (the extracted `replaceAccumulates`; `false` is the legacy variant where every entry overwrites the flag).
+    An error leaves the earlier replacements in place. Returns (types, busted, raised). -/
+def applyReplace (acc : Bool) (types : List TypeD) (busted : Bool) :
+    List (String × Option TypeD × Bool) → List TypeD × Bool × Bool
   | [] => (types, busted, false)
-  | (n, new, same) :: rest =>
+  | (n, new?, same) :: rest =>
     match types.find? (·.name == n) with
-    | none => applyReplace types busted rest
+    | none => applyReplace acc types busted rest
     | some orig =>
       if orig.builtin then (types, busted, true)
-      else if orig.kind != new.kind then (types, !same, true)
-      else applyReplace (types.map fun t => if t.name == n then new else t) (!same) rest
+      else
+        match new? with
+        | none => applyReplace acc (types.filter fun t => !(t.name == n)) ((acc && busted) || !same) rest
+        | some new =>
+          if orig.kind != new.kind then (types, (acc && busted) || !same, true)
+          else applyReplace acc (types.map fun t => if t.name == n then new else t) ((acc && busted) || !same) rest
+
+/-- the refusals of the type loop, evaluated before anything is replaced (fix C13-T3b) -/
+def precheckTypes (types : List TypeD) (entries : List (String × Option TypeD × Bool)) : Bool :=
+  entries.any fun e =>
+    match types.find? (·.name == e.1) with
+    | none => false
+    | some orig => orig.builtin || (match e.2.1 with | none => false | some new => orig.kind != new.kind)
+
+def precheckDirectives (dirs : List DirectiveD) (entries : List (String × Option DirectiveD × Bool)) : Bool :=
+  entries.any fun e => specifiedDirectives.contains e.1 && (dirs.any (·.name == e.1))
+
+/-- the loop over `directives`: (directives, busted, raised). `bust`: the extracted `replaceDirectivesBust`. -/
+def applyDirReplace (bust : Bool) (dirs : List DirectiveD) (busted : Bool) :
+    List (String × Option DirectiveD × Bool) → List DirectiveD × Bool × Bool
+  | [] => (dirs, busted, false)
+  | (n, new?, same) :: rest =>
+    if specifiedDirectives.contains n && dirs.any (·.name == n) then (dirs, busted, true)
+    else
+      match new? with
+      | none => applyDirReplace bust (dirs.filter fun d => !(d.name == n)) (busted || (bust && !same)) rest
+      | some new =>
+        applyDirReplace bust
+          (if dirs.any (·.name == n) then dirs.map (fun d => if d.name == n then new else d) else dirs ++ [new])
+          (busted || (bust && !same)) rest
+
+/-- root types are looked up again by name (`self.types.get(self.query_type.name)`) -/
+def relookRoot (types : List TypeD) (r : Option String) : Option String :=
+  r.bind fun n => if types.any (·.name == n) then some n else none
+
+def replaced (s : SchemaD) (types : List TypeD) (dirs : List DirectiveD) : SchemaD :=
+  { s with
+    types := types
+    directives := dirs
+    query := relookRoot types s.query
+    mutation := relookRoot types s.mutation
+    subscription := relookRoot types s.subscription }
+
+/-- `_replace_types_and_directives` with the three extracted shape flags -/
+def replaceStep (acc atomic dbust : Bool) (st : CacheState) (entries : List (String × Option TypeD × Bool))
+    (dirEntries : List (String × Option DirectiveD × Bool)) (healed : Option SchemaD) : CacheState × Outcome :=
+  if atomic && (precheckTypes st.schema.types entries || precheckDirectives st.schema.directives dirEntries) then
+    (st, .schemaError)
+  else
+    match applyReplace acc st.schema.types false entries with
+    | (types, _, true) => ({ st with schema := { st.schema with types := types } }, .schemaError)
+    | (types, busted, false) =>
+      match applyDirReplace dbust st.schema.directives busted dirEntries with
+      | (dirs, _, true) =>
+        ({ st with schema := { st.schema with types := types, directives := dirs } }, .schemaError)
+      | (dirs, busted2, false) =>
+        let s1 : SchemaD := replaced st.schema types dirs
+        if busted2 then ({ st with schema := healed.getD s1, isValid := false }, .ok)
+        else ({ st with schema := s1 }, .ok)
 
 def step (st : CacheState) : Op → CacheState × Outcome
   | .validate =>
@@ -399,11 +460,8 @@ def step (st : CacheState) : Op → CacheState × Outcome
         -- `field.subscription_resolver` is not part of the description: on schemas whose fields start
         -- without one, the "already has a subscription" test is subsumed by the registry test above
         ({ st1 with isValid := false }, .ok)
-  | .replaceTypes entries =>
-    match applyReplace st.schema.types false entries with
-    | (types, _, true) => ({ st with schema := { st.schema with types := types } }, .schemaError)
-    | (types, busted, false) =>
-      ({ st with schema := { st.schema with types := types }, isValid := st.isValid && !busted }, .ok)
+  | .replaceTypes entries dirEntries healed =>
+    replaceStep replaceAccumulates replaceAtomic replaceDirectivesBust st entries dirEntries healed
 
 def run (st : CacheState) : List Op → CacheState
   | [] => st
